@@ -5,11 +5,9 @@ go 1.23
 require (
 	github.com/anishathalye/porcupine v1.3.0
 	github.com/goblimey/go-ntrip v0.0.0
+	github.com/goblimey/go-tools v0.0.11
 )
 
-require (
-	github.com/goblimey/go-crc24q v0.0.0-20210107174841-6ea518daa3aa // indirect
-	github.com/goblimey/go-tools v0.0.11 // indirect
-)
+require github.com/goblimey/go-crc24q v0.0.0-20210107174841-6ea518daa3aa // indirect
 
 replace github.com/goblimey/go-ntrip => /repo
